@@ -538,6 +538,171 @@ def h_crossing(slope, direction, asign, m):
               use=['the routine returns', 'the crossing towards O', 'A and O are on the line'])
 
 
+def seg1(m, p, q):
+    return seg(m, p[0], p[1], q[0], q[1], 1)
+
+
+def _on_segment_spec(P, A_, O_):
+    """P is on the unit circle and strictly between A_ and O_ on their line"""
+    (px, py), (ax, ay), (ox, oy) = P, A_, O_
+    dxx, dyy = ox - ax, oy - ay
+    dot = (px - ax) * dxx + (py - ay) * dyy
+    return And(chk.Eq(px * px + py * py, 1), chk.Eq((px - ax) * dyy - (py - ay) * dxx, 0), dot > 0, dot < dxx * dxx + dyy * dyy)
+
+
+def _misses(P, Q):
+    """both end points strictly outside: the segment PQ stays outside the open unit disc iff the line does, or the foot of the
+    perpendicular from the centre falls outside the segment"""
+    (px, py), (qx, qy) = P, Q
+    dxx, dyy = qx - px, qy - py
+    cross = px * dyy - py * dxx
+    return Or(cross * cross >= dxx * dxx + dyy * dyy, px * dxx + py * dyy >= 0, qx * dxx + qy * dyy <= 0)
+
+
+def h_triangle(case, order, m):
+    """overlap_area_triangle_unit_circle on a triangle in general position (no vertex within 1e-9 of the circle), by configuration.
+    The two intersection routines are replaced by their specifications (circle_segment_single2: proved in triangle/crossing-point/*;
+    circle_segment: see META assumptions), the segment area is uninterpreted, nested calls are treated inductively."""
+    import itertools
+    X = [m.real(n_) for n_ in ('x1', 'y1', 'x2', 'y2', 'x3', 'y3')]
+    Pn = [(X[0], X[1]), (X[2], X[3]), (X[4], X[5])]
+    d = [p_[0] * p_[0] + p_[1] * p_[1] for p_ in Pn]
+    ins = [_inside(*p_) for p_ in Pn]
+    out = [_beyond(*p_) for p_ in Pn]
+    # strict order of the distances: the routine sorts the vertices first; `order` is the permutation (nearest first)
+    m.assume(And(d[order[0]] < d[order[1]], d[order[1]] < d[order[2]]))
+    V1, V2, V3 = Pn[order[0]], Pn[order[1]], Pn[order[2]]
+    kind = case
+    if kind == 'all-inside':
+        m.assume(And(*ins))
+    elif kind == 'two-inside':
+        m.assume(And(ins[order[0]], ins[order[1]], out[order[2]]))
+    elif kind in ('one-inside/miss', 'one-inside/chord'):
+        m.assume(And(ins[order[0]], out[order[1]], out[order[2]]))
+        m.assume(_misses(V2, V3) if kind.endswith('miss') else Not(_misses(V2, V3)))
+    elif kind == 'none-inside/miss':
+        m.assume(And(*out))
+        m.assume(And(_misses(V1, V2), _misses(V2, V3), _misses(V3, V1)))
+    if not m.sym:
+        I = interp(m, 'core', {})
+        v = float(I.call('overlap_area_triangle_unit_circle', [float(x) for x in X]))
+        m.require(f'triangle ({kind}): overlap with the unit disc', abs(v - areas.disc_triangle(*[float(x) for x in X])) <= 1e-9)
+        return
+    singles, chords, nested = [], [], []
+
+    def fresh_pt(I, tag):
+        c = symx.ctx()
+        return (SymReal(z3.Real(c.name(tag + 'x'))), SymReal(z3.Real(c.name(tag + 'y'))))
+
+    def fresh(tag):
+        return SymReal(z3.Real(symx.ctx().name(tag)))
+
+    def h_single(I, args, guard):
+        # specification (proved for the real routine in triangle/crossing-point/*): for A strictly inside and O strictly outside the
+        # result is A + s (O - A) with 0 < s < 1 on the unit circle
+        a_ = [V(t, m) for t in args]
+        A_, O_ = (a_[0], a_[1]), (a_[2], a_[3])
+        s_ = fresh('s_cross')
+        P = (A_[0] + s_ * (O_[0] - A_[0]), A_[1] + s_ * (O_[1] - A_[1]))
+        symx.ctx().assume(T_bool(Implies(And(_inside(*A_), _beyond(*O_)), And(s_ > 0, s_ < 1, chk.Eq(P[0] * P[0] + P[1] * P[1], 1)))))
+        singles.append((guard, A_, O_, P, s_))
+        return _pt(I, m, *P)
+
+    def h_chord(I, args, guard):
+        # specification (assumed, see META): for P, Q strictly outside, either the segment misses the open disc and both results have
+        # x > 1, or it crosses the circle at P + t1 (Q - P) and P + t2 (Q - P), 0 < t1 < t2 < 1, returned in either order with x <= 1
+        from vf.pyxsym import Struct
+        a_ = [V(t, m) for t in args]
+        P_, Q_ = (a_[0], a_[1]), (a_[2], a_[3])
+        t1, t2 = fresh('t_chord'), fresh('t_chord')
+        sw = symx.SymBool(z3.Bool(symx.ctx().name('swap')))
+        miss = _misses(P_, Q_)
+        both_out = And(_beyond(*P_), _beyond(*Q_))
+        R1 = (P_[0] + t1 * (Q_[0] - P_[0]), P_[1] + t1 * (Q_[1] - P_[1]))
+        R2 = (P_[0] + t2 * (Q_[0] - P_[0]), P_[1] + t2 * (Q_[1] - P_[1]))
+        far = fresh('far')
+        symx.ctx().assume(T_bool(far > 1))
+        symx.ctx().assume(T_bool(Implies(And(both_out, Not(miss)),
+                                         And(t1 > 0, t1 < t2, t2 < 1, chk.Eq(R1[0] * R1[0] + R1[1] * R1[1], 1), chk.Eq(R2[0] * R2[0] + R2[1] * R2[1], 1)))))
+        hit = And(both_out, Not(miss))
+        o1 = (If(hit, If(sw, R2[0], R1[0]), far), If(hit, If(sw, R2[1], R1[1]), far))
+        o2 = (If(hit, If(sw, R1[0], R2[0]), far), If(hit, If(sw, R1[1], R2[1]), far))
+        chords.append((guard, P_, Q_, R1, R2))
+        st = Struct('intersections', I.structs['intersections'], I.structs)
+        st._f['p1'] = _pt(I, m, *o1)
+        st._f['p2'] = _pt(I, m, *o2)
+        return st
+
+    def h_arc(I, args, guard):
+        a_ = [V(t, m) for t in args]
+        return T(seg(m, a_[0], a_[1], a_[2], a_[3], 1))
+
+    def h_nested(I, args, guard):
+        c = SymReal(z3.Real(symx.ctx().name('nested')))
+        nested.append((guard, [V(t, m) for t in args], c))
+        return c.t
+    I = interp(m, 'core', {'circle_segment_single2': h_single, 'circle_segment': h_chord, 'area_arc_unit': h_arc,
+                           'overlap_area_triangle_unit_circle': h_nested}, prune=True)
+    v = V(I.run(I.funcs['overlap_area_triangle_unit_circle'], [T(x) for x in X], z3.BoolVal(True)), m)
+    finish(m, I)
+    tri = lambda a_, b_, c_: chk.Abs(shoelace([a_, b_, c_]))
+
+    def single_for(A_, O_):
+        hit = [P for (g, a_, o_, P, s_) in singles if all(_same(m, p_, q_) for p_, q_ in zip(a_ + o_, A_ + O_))]
+        return hit[0] if hit else None
+    if kind == 'all-inside':
+        m.require('all vertices inside: the overlap is the triangle', chk.Eq(v, tri(V1, V2, V3)))
+    elif kind == 'two-inside':
+        PA, PB = single_for(V1, V3), single_for(V2, V3)
+        m.require('two vertices inside: the crossing points of the two sides that leave the disc are computed', PA is not None and PB is not None)
+        if PA is None or PB is None:
+            return
+        # the part of the triangle in the disc = quadrilateral V1 V2 PB PA (convex) + the circular segment on PA PB
+        sA = [c_[4] for c_ in singles if c_[3] is PA][0]
+        sB = [c_[4] for c_ in singles if c_[3] is PB][0]
+        O2 = m.define('twice the signed area of the triangle', 2 * shoelace([V1, V2, V3]))
+        m.lemma('orientation of V1 V2 PA', chk.Eq(2 * shoelace([V1, V2, PA]), sA * O2), use=['def twice'])
+        m.lemma('orientation of V2 PB PA', chk.Eq(2 * shoelace([V2, PB, PA]), sB * (1 - sA) * O2), use=['def twice'])
+        m.lemma('the quadrilateral V1 V2 PB PA is cut into V1 V2 PA and V2 PB PA with the same orientation',
+                shoelace([V1, V2, PA]) * shoelace([V2, PB, PA]) >= 0, use=['orientation of V1 V2 PA', 'orientation of V2 PB PA'])
+        m.lemma('quadrilateral = sum of the two triangles', chk.Eq(shoelace([V1, V2, PB, PA]), shoelace([V1, V2, PA]) + shoelace([V2, PB, PA])), use=[])
+        ref = chk.Abs(shoelace([V1, V2, PB, PA])) + seg1(m, PA, PB)
+        m.require('two vertices inside: overlap = quadrilateral (two vertices, two crossings) + circular segment on the crossings', chk.Eq(v, ref))
+    elif kind.startswith('one-inside'):
+        P3, P4 = single_for(V1, V2), single_for(V1, V3)
+        m.require('one vertex inside: the crossing points of its two sides are computed', P3 is not None and P4 is not None)
+        if P3 is None or P4 is None:
+            return
+        if kind.endswith('miss'):
+            # beyond the chord P3 P4 lies a circular segment: the minor one iff the centre is on the same side of the chord as V1
+            sideO = shoelace([P3, P4, (0 * X[0], 0 * X[0])])
+            sideV = shoelace([P3, P4, V1])
+            minor = sideO * sideV > 0
+            ref = tri(V1, P3, P4) + If(minor, seg1(m, P3, P4), symx.SymReal(symx.PI) - seg1(m, P3, P4))
+            m.require('one vertex inside, far side outside the disc: overlap = triangle (vertex, two crossings) + the circular segment beyond the chord '
+                      '(the major one when the centre lies beyond the chord)', chk.Eq(v, ref))
+        else:
+            ch = [c_ for c_ in chords if all(_same(m, p_, q_) for p_, q_ in zip(c_[1] + c_[2], V2 + V3))]
+            m.require('one vertex inside, far side crosses the disc: its two crossing points are computed', len(ch) == 1)
+            if len(ch) != 1:
+                return
+            R1, R2 = ch[0][3], ch[0][4]
+            Qa, Qb = R1, R2          # ordered along V2 -> V3: R1 is the crossing nearer to V2
+            ref = tri(V1, P3, Qa) + tri(V1, Qa, Qb) + tri(V1, Qb, P4) + seg1(m, Qa, P3) + seg1(m, Qb, P4)
+            m.require('one vertex inside, far side crosses the disc: overlap = fan of three triangles from the vertex + two circular segments', chk.Eq(v, ref))
+    elif kind == 'none-inside/miss':
+        o = (0 * X[0], 0 * X[0])
+        s1, s2, s3 = shoelace([V1, V2, o]), shoelace([V2, V3, o]), shoelace([V3, V1, o])
+        inside_tri = Or(And(s1 > 0, s2 > 0, s3 > 0), And(s1 < 0, s2 < 0, s3 < 0))
+        on_edge_line = Or(chk.Eq(s1, 0), chk.Eq(s2, 0), chk.Eq(s3, 0))
+        m.require('no vertex inside, no side meets the disc: the overlap is the whole disc (pi) if the centre is in the triangle, else 0',
+                  Or(on_edge_line, chk.Eq(v, If(inside_tri, symx.SymReal(symx.PI), 0 * X[0]))))
+
+
+def T_bool(b):
+    return b.t if isinstance(b, symx.SymBool) else z3.BoolVal(bool(b))
+
+
 # --------------------------------------------------------------------------
 # L6 the segment formula
 # --------------------------------------------------------------------------
@@ -670,6 +835,11 @@ def harnesses(tier):
         for dr in ('+', '-'):
             for sg in ('+', '-'):
                 hs.append((f'triangle/crossing-point/slope-{sl}/towards{dr}/slope-sign{sg}', P(h_crossing, sl, dr, sg)))
+    import itertools
+    perms = list(itertools.permutations(range(3)))
+    for kind in ('all-inside', 'two-inside', 'one-inside/miss', 'one-inside/chord', 'none-inside/miss'):
+        for od in (perms if tier != 'quick' else perms[::2] if kind != 'two-inside' else perms):
+            hs.append((f'triangle/{kind}/order-{"".join(str(k + 1) for k in od)}', P(h_triangle, kind, od)))
     hs.append(('segment-formula/radius-r', P(h_arc_formula, False)))
     hs.append(('segment-formula/unit', P(h_arc_formula, True)))
     hs.append(('plumbing/circle', P(h_plumbing, 'circle', None)))
